@@ -405,6 +405,7 @@ mod tests {
             Box::new(|| ItemContent::String("a\u{1d11e}\u{e9}".into())),
             Box::new(|| ItemContent::Any(vec![Any::BigInt(-7), Any::Bool(true), Any::Null])),
             Box::new(|| ItemContent::JSON(vec!["1".into(), "[2]".into()])),
+            Box::new(|| ItemContent::Binary(vec![1, 2, 3])),
             Box::new(|| ItemContent::Embed(Any::Number(9.5))),
             Box::new(|| ItemContent::Format(Arc::from("b"), Box::new(Any::Bool(true)))),
             Box::new(|| ItemContent::Type(yrs::branch::Branch::new(yrs::types::TypeRef::Array))),
